@@ -192,7 +192,9 @@ class Sensor(object):
         if rsp.states1 is not None:
             states = rsp.states1
             if rsp.states2 is not None:
-                states |= (rsp.states2 << 8)
+                # [7] of the second state byte is reserved ("returned as 1b,
+                # ignore on read"): the states are 14..8
+                states |= ((rsp.states2 & 0x7f) << 8)
         return (reading, states)
 
     def set_sensor_thresholds(self, sensor_number, lun=0,
